@@ -96,6 +96,18 @@ class Angle(EdgeData):
     def scale(self, ratio, origin=None):
         """Axis is not to be scaled"""
 
+    def rotate(self, angle, axis, origin=None):
+        """Axis is a direction: it is rotated but not displaced,
+        whatever the origin of rotation"""
+        self.axis.rotate(angle, axis, [0, 0, 0])
+        return self
+
+    def mirror(self, normal, origin=None):
+        """Axis is a direction: it is reflected but not displaced,
+        wherever the mirror plane is"""
+        self.axis.mirror(normal, [0, 0, 0])
+        return self
+
     @property
     def parts(self):
         return [self.axis]
